@@ -172,7 +172,18 @@ func (db *MemDB) AwaitProposal(ctx context.Context, slot uint64) (*eth2api.Versi
 	case <-ctx.Done():
 		return nil, ctx.Err()
 	case block := <-response:
-		return block, nil
+		// Clone before returning.
+		clone, err := core.VersionedProposal{VersionedProposal: *block}.Clone()
+		if err != nil {
+			return nil, err
+		}
+
+		proposal, ok := clone.(core.VersionedProposal)
+		if !ok {
+			return nil, errors.New("invalid versioned proposal")
+		}
+
+		return &proposal.VersionedProposal, nil
 	}
 }
 
@@ -201,7 +212,18 @@ func (db *MemDB) AwaitAttestation(ctx context.Context, slot uint64, commIdx uint
 	case <-ctx.Done():
 		return nil, ctx.Err()
 	case value := <-response:
-		return value, nil
+		// Clone before returning.
+		b, err := value.MarshalSSZ()
+		if err != nil {
+			return nil, errors.Wrap(err, "marshal attestation data")
+		}
+
+		clone := new(eth2p0.AttestationData)
+		if err := clone.UnmarshalSSZ(b); err != nil {
+			return nil, errors.Wrap(err, "unmarshal attestation data")
+		}
+
+		return clone, nil
 	}
 }
 
@@ -275,7 +297,18 @@ func (db *MemDB) AwaitSyncContribution(ctx context.Context, slot, subcommIdx uin
 	case <-ctx.Done():
 		return nil, ctx.Err()
 	case value := <-response:
-		return value, nil
+		// Clone before returning.
+		b, err := value.MarshalSSZ()
+		if err != nil {
+			return nil, errors.Wrap(err, "marshal sync contribution")
+		}
+
+		clone := new(altair.SyncCommitteeContribution)
+		if err := clone.UnmarshalSSZ(b); err != nil {
+			return nil, errors.Wrap(err, "unmarshal sync contribution")
+		}
+
+		return clone, nil
 	}
 }
 
